@@ -291,7 +291,7 @@ func (c02) Eval(c *Chooser, env *Env) *Outcome {
 		o.Sig = w.Hash() ^ r.K.TraceHash
 		return o
 	}
-	kind := c.Int("world.variantkind", 10) // 0,1: schedule+map order; 2: + other CPU count; 3: repeated execution; 4: repeated call on one Linter; 5: another GOMAXPROCS
+	kind := c.Int("world.variantkind", 11) // 0,1: schedule+map order; 2: + other CPU count; 3: repeated execution; 4: repeated call on one Linter; 5: another GOMAXPROCS
 	r0 := RunLint(w, nil, RunOpts{Canonical: true})
 	o.addRun(r0.K)
 	if v := runFailure("C02", r0.K); v != nil {
@@ -313,6 +313,13 @@ func (c02) Eval(c *Chooser, env *Env) *Outcome {
 		ro.Repeat = 2
 		ro.ReuseLinter = true
 		desc += ", second call on the same Linter instance"
+	case 10:
+		// an embedding program that keeps one Command object: it ran the same files with -ignore flags before
+		if w.API == APIMain {
+			ro.ReuseLinter = true
+			ro.PriorArgs = append([]string{"-ignore", ".+", "-ignore", "is unknown", "-oneline"}, w.Args...)
+			desc += ", on a Command object that ran the same arguments with two -ignore flags before"
+		}
 	case 8:
 		// the Linter instance has linted a file that is not YAML at all before (no rule ever ran for it)
 		if w.API != APIMain {
